@@ -139,6 +139,14 @@ fn drive<F: TagFrame, S: Signal<Frame = F> + Clone>(
         2 => cap as i64,
         _ => r.range(0, cap as i64),
     }) as usize;
+    // how the ring buffer is made: 0 recovered raw parts (any start, any pre-fill), 1 `From` (empty), 2 `from_full`
+    // (full of the storage's content), 3 `collect()` (empty, capacity = item count)
+    let ctor = src.cfg("ring_ctor", 0, 3, |r| if r.chance(3, 4) { 0 } else { r.range(1, 3) });
+    let (start, prefill) = match ctor {
+        0 => (start, prefill),
+        2 => (0, cap),
+        _ => (0, 0),
+    };
     let steps = src.cfg("steps", 0, 3000, |r| if r.chance(1, 40) { r.range(500, 3000) } else { r.range(0, 120) }) as usize;
     let drain_at_end = src.cfg("drain", 0, 1, |r| (end.is_some() && r.chance(2, 3)) as i64) == 1 && end.is_some();
     let w = [
@@ -181,7 +189,12 @@ fn drive<F: TagFrame, S: Signal<Frame = F> + Clone>(
     } else {
         data
     };
-    let rb = Bounded::from_raw_parts(start, prefill, data);
+    let rb = match ctor {
+        0 => Bounded::from_raw_parts(start, prefill, data),
+        1 => Bounded::from(data),
+        2 => Bounded::from_full(data),
+        _ => data.into_iter().collect(),
+    };
     let mut b = Some(sig.buffered(rb));
     let mut done = 0usize;
     loop {
